@@ -368,6 +368,11 @@ def options_strategy(cls: dict, max_len: int = 16384, rich_keys: bool = False):
         d["digest"] = st.sampled_from([None, None, "sha256", "sha384", "sha512", "add", "add"])
     if has(cls, "MixinFcfObsolete"):
         d["lifecycle"] = st.sampled_from([None, None] + sorted(LIFECYCLES))
+    if has(cls, "MixinBca") and not has(cls, "MixinBcaTable"):
+        # MCXC: bootloader configuration area and flash configuration field given apart from the application (binary file,
+        # configuration file) or already inside it
+        d["bca"] = st.one_of(st.none(), st.fixed_dictionaries({"seed": st.binary(min_size=60, max_size=60), "as": st.sampled_from(["bin", "yaml", "embedded"])}))
+        d["fcf"] = st.one_of(st.none(), st.fixed_dictionaries({"seed": st.binary(min_size=16, max_size=16), "as": st.sampled_from(["bin", "yaml", "embedded"])}))
     ck = cert_kind(cls)
     if ck == "v1":
         d["v1"] = _v1_strategy()
@@ -380,6 +385,10 @@ def options_strategy(cls: dict, max_len: int = 16384, rich_keys: bool = False):
         d["vx"] = _vx_strategy()
         d["sign_as"] = st.sampled_from(["signPrivateKey", "signProvider"])
     return st.fixed_dictionaries(d)
+
+
+def options_keys(cls: dict) -> set:
+    return {"bca", "fcf"} if has(cls, "MixinBca") and not has(cls, "MixinBcaTable") else set()
 
 
 def class_key(cls: dict) -> dict:
@@ -396,7 +405,7 @@ def case_strategy(class_list, max_len: int = 16384):
     for comp in sorted(by_comp):
         c0 = by_comp[comp][0]
         # the compositions that carry most optional structure (certificates, relocation table, HMAC/key store, encryption) get more cases
-        weight = 1 + (2 if cert_kind(c0) else 0) + (2 if has(c0, "MixinRelocTable") else 0) + (2 if c0["image_type"] == 3 else 0)
+        weight = 1 + (2 if cert_kind(c0) else 0) + (2 if has(c0, "MixinRelocTable") else 0) + (2 if c0["image_type"] == 3 else 0) + (2 if "bca" in options_keys(c0) else 0)
         comps += [comp] * weight
 
     def pick(comp):
@@ -467,6 +476,8 @@ class Built:
         self.reloc = None  # list of (bytes, dest)
         self.digest_alg = None
         self.lifecycle = None
+        self.bca_bytes = None  # MCXC: the area the image must carry at 0x3C0 / 0x400 (None: whatever the application holds)
+        self.fcf_bytes = None
         self.sign_key = None  # key description of the image signing key
         self.v1 = None
         self.v21 = None
@@ -505,6 +516,31 @@ def _tz_values(cls: dict, tz: dict) -> tuple:
         values[i] = v
         custom[spec[i][0]] = "0x%08X" % v
     return 1, struct.pack("<%dI" % len(values), *values), {"yaml": custom}
+
+
+def _area_cls(key: str):
+    if key == "bca":
+        from spsdk.image.bca.bca import BCA
+
+        return BCA
+    from spsdk.image.fcf.fcf import FCF
+
+    return FCF
+
+
+def _area_fixed_point(key: str, cls: dict, raw: bytes):
+    """A block the area's own parse/export maps to itself (reserved bytes as the area writes them), None if there is none."""
+    try:
+        area = _area_cls(key)
+        blob = bytes(area.parse(raw, family=cls["family"], revision=cls["revision"]).export())
+        again = bytes(area.parse(blob, family=cls["family"], revision=cls["revision"]).export())
+        return blob if again == blob else None
+    except Exception:  # noqa: BLE001
+        return None
+
+
+def _area_config(key: str, cls: dict, blob: bytes) -> str:
+    return _area_cls(key).parse(blob, family=cls["family"], revision=cls["revision"]).create_config()
 
 
 def materialise(case: dict, root: str) -> Built:
@@ -631,6 +667,31 @@ def materialise(case: dict, root: str) -> Built:
         if lc is not None:
             cfg["lifeCycle"] = lc
         labels.append("lifecycle:%s" % (lc or "absent"))
+
+    for key, size, off in (("bca", 64, 0x3C0), ("fcf", 16, 0x400)):
+        area = opt.get(key)
+        if not area:
+            if key in opt:
+                labels.append(key + ":app")
+            continue
+        blob = _area_fixed_point(key, cls, (b"kcfg" if key == "bca" else b"") + bytes(area["seed"]))
+        if blob is None or len(blob) != size:
+            labels.append(key + ":unstable")  # the area's own parse/export is not an identity on it: C12's business, not supplied here
+            continue
+        setattr(b, key + "_bytes", blob)
+        how = area["as"]
+        if how == "embedded":
+            app = bytearray(b.app)
+            app[off : off + size] = blob
+            b.app = bytes(app)
+            _write(os.path.join(d, "app.bin"), b.app)
+        elif how == "bin":
+            _write(os.path.join(d, key + "_in.bin"), blob)
+            cfg[key] = key + "_in.bin"
+        else:
+            _write(os.path.join(d, key + "_in.yaml"), _area_config(key, cls, blob))
+            cfg[key] = key + "_in.yaml"
+        labels.append("%s:%s" % (key, how))
 
     sign_as = opt.get("sign_as", "signPrivateKey")
 
@@ -896,6 +957,10 @@ def default_case(cls: dict, salt: int = 0) -> dict:
         opt["digest"] = [None, "add", "sha256", "sha384"][r % 4]
     if has(cls, "MixinFcfObsolete"):
         opt["lifecycle"] = [None, "OEM_OPEN", "NOT_SET"][r % 3]
+    if has(cls, "MixinBca") and not has(cls, "MixinBcaTable"):
+        forms = ["bin", "yaml", "embedded"]
+        opt["bca"] = {"seed": (h + h)[:60], "as": forms[r % 3]}
+        opt["fcf"] = {"seed": h[16:32], "as": forms[(r >> 3) % 3]}
     ck = cert_kind(cls)
     if ck == "v1":
         bits = [2048, 3072, 4096][r % 3]
